@@ -55,8 +55,8 @@ pub fn lcs_by_score<T>(
         if i > 0 && j > 0 {
             let score = score_fn(&old[i - 1], &new[j - 1]);
 
-            if score > 0.0 {
-                // Likely matched
+            if score > 0.0 && dp[i][j] == dp[i - 1][j - 1] + score {
+                // Matched on an optimal path
                 results.push(DiffResult::Common {
                     old_index: i - 1,
                     new_index: j - 1,
@@ -98,6 +98,14 @@ fn nodes_match<T: SizedType>(old: &StateTreeSkeleton<T>, new: &StateTreeSkeleton
             c1.len() == c2.len() && c1.iter().zip(c2.iter()).all(|(a, b)| nodes_match(a, b))
         }
         _ => false,
+    }
+}
+
+/// Number of leaf state cells (Delay/Mem/Feed) below a node
+fn leaf_count<T: SizedType>(node: &StateTreeSkeleton<T>) -> usize {
+    match node {
+        StateTreeSkeleton::FnCall(children) => children.iter().map(|c| leaf_count(c)).sum(),
+        _ => 1,
     }
 }
 
@@ -167,8 +175,12 @@ fn build_patches_recursive<T: SizedType>(
                         child_old_path,
                         child_new_path,
                     );
+                    // An exact structural match must outrank every partial match into the
+                    // same node, which can yield at most one patch per leaf.
                     let score = if patches.is_empty() {
                         0.0
+                    } else if nodes_match(&old_children[old_idx], &new_children[new_idx]) {
+                        leaf_count(&new_children[new_idx]) as f64 + 0.5
                     } else {
                         patches.len() as f64
                     };
